@@ -356,7 +356,7 @@ pub fn fam_sfp(cx: &mut Cx2, rng: &mut Rng) {
     }
     // larger: well-known operations, renamed, perturbed
     for _ in 0..cx.args.budget(20_000, 300_000, 20) {
-        let n = 4 + rng.below(3);
+        let n = [4, 5, 6, 8][rng.below(4)];
         let lib = ops(n);
         let p = rand_perm(rng, n);
         let mut f = relabel_op(&rng.choose(&lib).1, &p);
